@@ -481,6 +481,15 @@ theorem string_leaf_any_json_writer (body s : Str) (hv : validUtf8 body = true)
     unquoteBytes (0x22 :: (body ++ [0x22])) = some s :=
   unquote_of_jsonDecode body s hv h
 
+/-- … and in particular Python's `json.dumps` (what a Python stage writes into
+`_outs`, whose string tokens reach the MRO lexer unchanged through
+`Fork.writeInvocation`): `\\uXXXX` for everything outside `' '..'~'`, a
+surrogate pair of escapes for every non-BMP rune.  For ALL valid UTF-8
+strings. -/
+theorem string_leaf_python_writer (s : Str) (h : validUtf8 s = true) :
+    unquoteBytes (pyEncodeString s) = some s :=
+  unquote_pyEncode s h
+
 /-- MRO → JSON, (b): `MarshalJSON`/`EncodeJSON` print every string and map key
 with `quoteString`; a JSON reader decodes that text to the string. -/
 theorem string_leaf_mro_to_json (s : Str) (h : validUtf8 s = true) :
